@@ -102,7 +102,8 @@ Pr(e, extra) ==
    [e |-> tree, r |-> remaining tokens]. *)
 Punct == {"(", ")", "[", "]", "{", "}", ",", ":", "?", ".", "..."}
 IsWord(t) == t \notin Punct /\ t \notin BinOps /\ t \notin UnOps
-LitToks == {"0", "1", "2", "1.5", "0x1F", "017", "1e3", "''", "'x'", "'1'", "true", "false", "null", "undefined"}
+LitToks == {"0", "1", "2", "1.5", "0x1F", "017", "1e3", "''", "'x'", "'1'", "true", "false", "null", "undefined",
+            "'q.p'", "'p-1'", "'p q'", "'p.length'", "'length '"}
 
 RECURSIVE PCond(_), PBin(_, _), PBinLoop(_, _, _), PUnary(_), PPostfix(_), PPostLoop(_, _),
           PPrimary(_), PArgs(_, _), PElems(_, _), PFields(_, _)
@@ -225,7 +226,13 @@ Lazy == LET ix == Idx(A, Call(B, <<D>>)) IN
         {Cond(C, ix, E), Cond(C, E, ix), Bin("&&", C, ix), Bin("||", C, ix), Bin("??", C, ix),
          Cond(C, Mem(ix, "p"), E), Bin("&&", C, Idx(A, Idx(B, Call(D, <<E>>))))}
 
-Trees == {e \in Leaves \cup Trees1 \cup Trees1Lit \cup Trees2 \cup Lazy : Legal(e)}
+(* string-literal keys that are not identifier names although they begin like one: `a['q.p']` reads the property named
+   "q.p" - not a.q.p, and `a['p-1']` not a.p - 1 (the environments hold objects with these keys AND with q.p and p) *)
+KeyLits == {Lit("'q.p'"), Lit("'p-1'"), Lit("'p q'"), Lit("'p.length'"), Lit("'length '")}
+KeyTrees == UNION {{Idx(A, l), Mem(Idx(A, l), "p"), Idx(Mem(A, "q"), l), Call(Idx(A, l), <<B>>), Idx(Idx(A, l), B),
+                    Bin("+", Idx(A, l), B), Cond(B, Idx(A, l), C)} : l \in KeyLits}
+
+Trees == {e \in Leaves \cup Trees1 \cup Trees1Lit \cup Trees2 \cup Lazy \cup KeyTrees : Legal(e)}
 
 (* Identifier spellings.  The trees above name their leaves a..e; to JavaScript an identifier is a maximal run of
    identifier characters (letters, digits, `_`, `$`), so a name that BEGINS with a word the expression language writes
